@@ -3,17 +3,115 @@ From DF Require Import Prelude Rotator.
 Open Scope Q_scope.
 
 Section M.
+  Variable rnd : Q -> Q.
   Variable nv : nat.
   Variable perm : list nat.
   Variable orig : fld.
   Variable choose_n : mat3 -> n3.
 
-  Lemma run_app ops1 ops2 :
-    run nv perm orig choose_n (ops1 ++ ops2) =
-    fold_left (step nv perm orig choose_n) ops2 (run nv perm orig choose_n ops1).
+  Notation run' := (run rnd nv perm orig choose_n).
+  Notation step' := (step rnd nv perm orig choose_n).
+
+  Lemma run_app ops1 ops2 : run' (ops1 ++ ops2) = fold_left step' ops2 (run' ops1).
   Proof. unfold run. apply fold_left_app. Qed.
 
-  Lemma clear_restores ops :
-    run nv perm orig choose_n (ops ++ [OClear]) = St mid orig.
+  Lemma clear_restores ops : run' (ops ++ [OClear]) = St mid orig.
   Proof. rewrite run_app. reflexivity. Qed.
+
+  (* the accumulated rotation is the ordered product of the steps since the last clear *)
+  Lemma fold_rot ops : forall s, st_rot (fold_left step' ops s) = acc_rot rnd (st_rot s) ops.
+  Proof.
+    induction ops as [|o ops IH]; intro s; [reflexivity|].
+    cbn [fold_left acc_rot]. rewrite IH. destruct o; reflexivity.
+  Qed.
+
+  Lemma run_rot ops : st_rot (run' ops) = acc_rot rnd mid ops.
+  Proof. unfold run. rewrite fold_rot. reflexivity. Qed.
+
+  (* after a history that ends with a rotation the field is the rotation of the ORIGINAL field by the
+     accumulated matrix, whatever the intermediate fields and resolutions were *)
+  Lemma run_field ops M nopt :
+    let R := acc_rot rnd mid (ops ++ [ORot M nopt]) in
+    run' (ops ++ [ORot M nopt]) =
+    St R (rotated_field rnd nv perm orig R (match nopt with Some n => n | None => choose_n R end)).
+  Proof.
+    intro R. rewrite run_app. cbn [fold_left step].
+    assert (E : mmul rnd M (st_rot (run' ops)) = R).
+    { unfold R. rewrite run_rot. generalize mid. induction ops as [|o t IH]; intro a; [reflexivity|].
+      destruct o; cbn [app acc_rot]; apply IH. }
+    rewrite E. reflexivity.
+  Qed.
+
+  Lemma acc_rot_app ops1 ops2 a : acc_rot rnd a (ops1 ++ ops2) = acc_rot rnd (acc_rot rnd a ops1) ops2.
+  Proof. revert a. induction ops1 as [|o t IH]; intro a; [reflexivity|]. destruct o; cbn [app acc_rot]; apply IH. Qed.
+
+  Lemma acc_rot_last ops M nopt a :
+    acc_rot rnd a (ops ++ [ORot M nopt]) = mmul rnd M (acc_rot rnd a ops).
+  Proof. rewrite acc_rot_app. reflexivity. Qed.
+
+  Lemma rotated_val_fast_eq R n' : rotated_val_fast rnd nv perm orig R n' = rotated_val rnd nv perm orig R n'.
+  Proof. reflexivity. Qed.
 End M.
+
+(* ---------- matrices: the hook disappears, products act in order ---------- *)
+Section Exact.
+  Variable rnd : Q -> Q.
+  Hypothesis rnd_id : forall x, rnd x == x.
+
+  Lemma dot_spec a b : dot rnd a b == vx a * vx b + vy a * vy b + vz a * vz b.
+  Proof. unfold dot. apply rnd_id. Qed.
+
+  Lemma dot3 a b c x y z : dot rnd (V3 a b c) (V3 x y z) == a * x + b * y + c * z.
+  Proof. apply dot_spec. Qed.
+
+  Lemma mapply_mmul A B v : veq (mapply rnd (mmul rnd A B) v) (mapply rnd A (mapply rnd B v)).
+  Proof.
+    destruct A as [[a00 a01 a02] [a10 a11 a12] [a20 a21 a22]].
+    destruct B as [[b00 b01 b02] [b10 b11 b12] [b20 b21 b22]]. destruct v as [x y z].
+    unfold veq, mmul, mtrans, mcol, mapply; cbn [r0 r1 r2 vx vy vz vnth].
+    repeat split; rewrite !dot3; ring.
+  Qed.
+
+  Lemma mapply_mid v : veq (mapply rnd mid v) v.
+  Proof. destruct v as [x y z]. unfold veq, mapply, mid; cbn [r0 r1 r2 vx vy vz]. repeat split; rewrite dot3; ring. Qed.
+
+  Lemma mapply_veq M u v : veq u v -> veq (mapply rnd M u) (mapply rnd M v).
+  Proof.
+    intros (H0 & H1 & H2). unfold veq, mapply; cbn [vx vy vz]. repeat split; rewrite !dot_spec, H0, H1, H2; reflexivity.
+  Qed.
+
+  Lemma veq_trans a b c : veq a b -> veq b c -> veq a c.
+  Proof. intros (A0 & A1 & A2) (B0 & B1 & B2). repeat split; etransitivity; eauto. Qed.
+
+  (* later rotations are applied after earlier ones: the accumulated matrix of a clear-free history acts
+     on a vector like the steps applied one after the other *)
+  Fixpoint apply_steps (ops : list op) (v : vec3) : vec3 :=
+    match ops with
+    | [] => v
+    | ORot M _ :: t => apply_steps t (mapply rnd M v)
+    | OClear :: t => apply_steps t v
+    end.
+  Fixpoint no_clear (ops : list op) : Prop :=
+    match ops with [] => True | ORot _ _ :: t => no_clear t | OClear :: _ => False end.
+
+  Lemma acc_rot_acts ops : no_clear ops -> forall A v,
+    veq (mapply rnd (acc_rot rnd A ops) v) (apply_steps ops (mapply rnd A v)).
+  Proof.
+    induction ops as [|o t IH]; intros NC A v.
+    - repeat split; reflexivity.
+    - destruct o as [M nopt|]; [|destruct NC]. cbn [acc_rot apply_steps].
+      eapply veq_trans; [apply IH, NC|].
+      clear IH NC. generalize (mapply_mmul M A v). generalize (mapply rnd (mmul rnd M A) v), (mapply rnd M (mapply rnd A v)).
+      intros u w E. revert u w E. induction t as [|o t IH]; intros u w E; [exact E|].
+      destruct o; cbn [apply_steps]; apply IH; [apply mapply_veq, E | exact E].
+  Qed.
+
+  Lemma compose_in_order ops : no_clear ops -> forall v,
+    veq (mapply rnd (acc_rot rnd mid ops) v) (apply_steps ops v).
+  Proof.
+    intros NC v. eapply veq_trans; [apply acc_rot_acts, NC|].
+    generalize (mapply_mid v). generalize (mapply rnd mid v). intros u E. revert u v E.
+    induction ops as [|o t IH]; intros u v E; [exact E|].
+    destruct o; [|destruct NC]. cbn [apply_steps]. apply IH; [exact NC | apply mapply_veq, E].
+  Qed.
+End Exact.
